@@ -331,6 +331,14 @@ func labelsFromSelectors(matches []labels.MatchType, selector *promParser.Vector
 // a non-empty value of a plain (matrix) selector argument, unless the label name is matched more than once.
 // Any other argument makes these functions return a series with no labels.
 func absentLabels(arg promParser.Expr) (names []string) {
+	// The engine unwraps parentheses around call arguments.
+	for {
+		p, ok := arg.(*promParser.ParenExpr)
+		if !ok {
+			break
+		}
+		arg = p.Expr
+	}
 	var selector *promParser.VectorSelector
 	switch a := arg.(type) {
 	case *promParser.VectorSelector:
@@ -341,15 +349,21 @@ func absentLabels(arg promParser.Expr) (names []string) {
 	if selector == nil {
 		return nil
 	}
-	count := map[string]int{}
+	// Same walk as the engine: the first equality matcher of a name sets the label (an empty value removes it),
+	// any other matcher of that name removes it.
+	seen := map[string]bool{}
 	for _, lm := range selector.LabelMatchers {
-		count[lm.Name]++
-	}
-	for _, lm := range selector.LabelMatchers {
-		if lm.Name == labels.MetricName || lm.Type != labels.MatchEqual || lm.Value == "" || count[lm.Name] > 1 {
+		if lm.Name == labels.MetricName {
 			continue
 		}
-		names = appendToSlice(names, lm.Name)
+		if lm.Type == labels.MatchEqual && !seen[lm.Name] {
+			seen[lm.Name] = true
+			if lm.Value != "" {
+				names = appendToSlice(names, lm.Name)
+				continue
+			}
+		}
+		names = removeFromSlice(names, lm.Name)
 	}
 	return names
 }
